@@ -36,7 +36,7 @@ def run(ctx):
         if line.startswith('<<"HIST", '):
             stim.append({"kinds": json.loads(json.loads(line[len('<<"HIST", '):-2]))})
     all_kinds = ["plainOK", "plainSepCon", "plainCancel", "plainExpire", "plainRst", "dupToken", "bwUpOK", "bwUpCancel", "bwUpRefused", "bwDownOK", "bwDownAbandon", "obsOK", "obsCancel",
-                 "obsFail", "obsSilentCancel", "pingOK", "pingCancel", "oneWay", "srvReq", "srvReqNon", "srvReqNoResp", "srvReqHijack", "srvBwUpAbandon", "srvBwDownAbandon", "srvBwDownRetry", "tickEarly", "tickBw", "tickLate"]
+                 "obsFail", "obsSilentCancel", "pingOK", "pingCancel", "pingAsyncOK", "oneWay", "srvReq", "srvReqNon", "srvReqNoResp", "srvReqHijack", "srvBwUpAbandon", "srvBwDownAbandon", "srvBwDownRetry", "tickEarly", "tickBw", "tickLate"]
     stim.append({"kinds": all_kinds})
     spath = os.path.join(ctx.work, "stimuli.ndjson")
     vf.write_ndjson(spath, stim)
